@@ -396,7 +396,10 @@ impl ArchiveManager {
         file.flush()
             .map_err(|e| StorageError::Archive(format!("Failed to flush: {e}")))?;
 
-        // Check if file grew significantly and remap if needed
+        // The memory map is a snapshot of the file taken when it was created:
+        // reads are bounds-checked against it, so it has to be refreshed
+        // whenever the file grew, otherwise the entry just written (and every
+        // later one) is reported as lying beyond the archive bounds.
         let new_size = self.get_file_size(&archive_path)?;
         let current_size = {
             let archive = self
@@ -407,17 +410,7 @@ impl ArchiveManager {
             archive.size
         };
 
-        // Remap if file grew by more than 64MB or doubled in size
-        let size_threshold = 64 * 1024 * 1024; // 64MB
-        let size_difference = new_size.saturating_sub(current_size);
-        #[allow(clippy::cast_precision_loss)]
-        let size_ratio = if current_size > 0 {
-            new_size as f64 / current_size as f64
-        } else {
-            f64::INFINITY
-        };
-
-        if size_difference > size_threshold || size_ratio > 2.0 {
+        if new_size != current_size {
             debug!(
                 "Remapping archive {} due to size change: {} -> {} bytes",
                 id, current_size, new_size
